@@ -170,9 +170,15 @@ fn main() {
                 let want_fill = sig_of(&format!("⬚7({h})"), &prelude)
                     .filter(|(a, o, _)| *a == fa && *o == fo)
                     .map(|(_, _, asm_f)| run_main(&asm_f, &sentinels, &args));
+                // two handlers: the first function takes fewer arguments than the try as a whole, the middle
+                // handler takes all of them plus the error and fails, the last one takes the error too:
+                // the whole must behave like the last handler alone on the same arguments
+                let want_two = sig_of(&format!("{h} ◌"), &prelude)
+                    .filter(|(a, o, _)| *a == fa + 1 && *o == fo)
+                    .map(|(_, _, asm_f)| run_main(&asm_f, &sentinels, &args));
                 for j in 0..=k {
                     let fj = render(&its, Some(j));
-                    for ctx in 0..6 {
+                    for ctx in 0..7 {
                         let body = match ctx {
                             0 => format!("⍣({fj})({h})"),
                             1 => format!("⬚7(⍣({fj})({h}))"),
@@ -180,14 +186,24 @@ fn main() {
                             3 => format!("⍣(⍣({fj})(⍤\"again\"0 {h}))({h})"),
                             // the failure escapes from INSIDE a fill / a nested fill before it is caught
                             4 => format!("⍣(⬚7({fj}))({h})"),
-                            _ => format!("⍣(⬚7(⊙∘ ⬚8({fj})))({h})"),
+                            5 => format!("⍣(⬚7(⊙∘ ⬚8({fj})))({h})"),
+                            // (the error value lies BENEATH the arguments: it is popped under the one output)
+                            _ => {
+                                if fo != 1 {
+                                    continue;
+                                }
+                                format!("⍣({fj}|⍤\"mid\"0 ⊙◌ {h} ◌|⊙◌ {h} ◌)")
+                            }
                         };
                         let Some((ta, to, asm_t)) = sig_of(&body, &prelude) else { continue };
-                        if ta != fa || to != fo {
+                        if ta != fa + (ctx == 6) as usize || to != fo {
                             continue;
                         }
                         let want = if ctx == 1 {
                             let Some(w) = &want_fill else { continue };
+                            w
+                        } else if ctx == 6 {
+                            let Some(w) = &want_two else { continue };
                             w
                         } else {
                             &want0
